@@ -1089,11 +1089,11 @@ class Unit:
                 else:
                     body.edit('S-hint', pz, pz + len(needle), text)
             elif where == 'before':
-                body.insert_before_line_of('S-hint', needle, text, nthh)
+                body.insert_before_line_of('S-hint', needle, HINT_OPEN + text + HINT_CLOSE, nthh)
             else:
-                body.insert_after_line_of('S-hint', needle, text, nthh)
+                body.insert_after_line_of('S-hint', needle, HINT_OPEN + text + HINT_CLOSE, nthh)
         if body_start:
-            body.at_body_start(body_start)
+            body.at_body_start(HINT_OPEN + body_start + HINT_CLOSE)
         sig.check_reversible()
         body.check_reversible()
         # --- evidence bookkeeping ---
@@ -1279,6 +1279,7 @@ def closure_params(t):
     return [norm_ws(t[a:b + 1]) + ' ' + norm_ws(t[b + 1:b + 61]) for a, b in closure_starts(t)]
 
 
+HINT_OPEN, HINT_CLOSE = '/*VH{*/', '/*}VH*/'     # proof hints spliced into real function text are bracketed by these comments
 _BASE_CLOSURES = None
 _BASE_LOOPS = None
 
@@ -1452,6 +1453,18 @@ def classify(unit: Unit, res):
                 return ob
         return None
 
+    # lines that belong to spliced proof hints
+    hint_lines = set()
+    depth = 0
+    for ln, text in enumerate('\n'.join(unit.lines).split('\n'), 1):
+        if HINT_OPEN in text:
+            depth += text.count(HINT_OPEN)
+        if depth > 0:
+            hint_lines.add(ln)
+        if HINT_CLOSE in text:
+            depth -= text.count(HINT_CLOSE)
+    out['hint_only'] = {}
+
     for d in res['diags']:
         if d.get('level') != 'error':
             continue
@@ -1489,6 +1502,10 @@ def classify(unit: Unit, res):
                 o = owner(prim[0]['line_start'])
                 ob = o[3] if o else ob
         out['failed'].setdefault(ob, []).append(rendered)
+        in_hint = bool(prim) and prim[0]['line_start'] in hint_lines and ('assertion failed' in msg or 'precondition not satisfied' in msg)
+        out['hint_only'].setdefault(ob, []).append(in_hint)
+    # an obligation ALL of whose failures sit inside spliced proof hints (a failing intermediate assertion / lemma precondition)
+    out['hint_only'] = {ob: all(v) for ob, v in out['hint_only'].items()}
     # rlimit-undecided functions make all their obligations undecided
     return out
 
